@@ -37,6 +37,17 @@ func (s *Server) Put(db int, key string, v *Value) {
 	s.dbs[db][key] = v.Clone()
 }
 
+// Del removes a key directly (harness / cluster double).
+func (s *Server) Del(db int, key string) {
+	s.mu.Lock()
+	defer s.mu.Unlock()
+	delete(s.dbs[db], key)
+}
+
+// HasLocked reports whether a live key exists; the caller holds the server lock
+// (used from Route hooks).
+func (s *Server) HasLocked(db int, key string) bool { return s.lookup(db, key) != nil }
+
 // Keys lists the live keys of a db, sorted.
 func (s *Server) Keys(db int) []string {
 	s.mu.Lock()
@@ -133,6 +144,9 @@ func (s *Server) command(cs *ConnState, argv [][]byte) []byte {
 		}
 		if n < 0 || n >= int64(len(s.dbs)) {
 			return rErr("ERR DB index is out of range")
+		}
+		if s.ClusterMode && n != 0 {
+			return rErr("ERR SELECT is not allowed in cluster mode")
 		}
 		cs.DB = int(n)
 		return rOK()
@@ -1000,7 +1014,7 @@ func (s *Server) info(a [][]byte) string {
 	}
 	var sb strings.Builder
 	if sec == "" || sec == "server" || sec == "all" {
-		fmt.Fprintf(&sb, "# Server\r\nredis_version:%s\r\nredis_mode:standalone\r\n", s.Version)
+		fmt.Fprintf(&sb, "# Server\r\nredis_version:%s\r\nredis_mode:%s\r\n", s.Version, map[bool]string{true: "cluster", false: "standalone"}[s.ClusterMode])
 	}
 	if sec == "" || sec == "replication" || sec == "all" {
 		fmt.Fprintf(&sb, "# Replication\r\nrole:%s\r\nconnected_slaves:0\r\nmaster_replid:%s\r\nmaster_replid2:%s\r\nmaster_repl_offset:%d\r\nsecond_repl_offset:%d\r\n",
